@@ -13,7 +13,7 @@ CHECKS = {
    ref="4 C01"),
  'C04': dict(
    text="Raw samples, amplitude envelope and (in cut mode) the cyclepoint positions are z3 variables; the real compute_shape_features and helpers run on every feasible path and each shape column is proved equal to its documented formula read on the original signal, for both centrings, incl. the (0,1) / [0,1] ranges and the arguments of the amplitude call.",
-   note="Trusted: numpy/pandas models (witness-validated); cut mode assumes the C01 postcondition for compute_cyclepoints. Bounds: e2e padded length 8 (quick) / 9; cut N <= 9 with 1..3 cycles (quick) / N <= 10.",
+   note="Trusted: numpy/pandas models (witness-validated); cut mode assumes the C01 postcondition for compute_cyclepoints. Bounds: e2e padded length 8 (quick) / 9; cut N <= 9 with 1..3 cycles (quick) / N <= 10; int16 / uint8 / int64 signals over the whole type range with wrap-around modelled (N = 4 / 6); durations, extremum voltages and symmetry also with UNBOUNDED sample positions (1..2 / 1..3 cycles, signal known only at the extrema); 64-bit integers are treated as unbounded.",
    ref="4 C04"),
  'C02': dict(
    text="Raw samples, the band-passed samples (arbitrary filter output) and the boundary are z3 variables; all feasible paths of the real find_extrema are executed for every padded length up to the bound and every reported extremum is proved to be the first raw-signal extreme of its closed half-wave window, nothing else being reported; boundary and first_extrema rules included.",
@@ -21,11 +21,11 @@ CHECKS = {
    ref="4 C02"),
  'C03': dict(
    text="Samples are unbounded z3 reals and the alternating extrema positions z3 integers; all feasible paths of the real find_zerox are executed and every midpoint is proved equal to the floor-median of the half-height crossings (centre for inverted / all-zero flanks), with count and temporal pairing.",
-   note="Trusted: numpy model (witness-validated), real arithmetic for (a+b)/2. Bound: N <= 7 (quick) / 9 (thorough).",
+   note="Trusted: numpy model (witness-validated), real arithmetic for (a+b)/2. Bound: N <= 7 (quick) / 9 (thorough); int16 / uint8 signals (every value of the type, wrap-around modelled) N <= 5 / 6.",
    ref="4 C03"),
  'C05': dict(
    text="Flank voltages of any sign (zero allowed), positive integer periods, raw samples and cyclepoint positions are z3 variables; the four real burst-feature functions run over the pandas/numpy models on every feasible path (including the 0/0 -> NaN and x/0 -> -inf branches) and each output cell is proved equal to the reference definition and inside [0,1] for positive flank voltages.",
-   note="Trusted: pandas/numpy models incl. rank(method=average) (witness-validated on the real libraries), real arithmetic for ratios/means. Bounds: see evidence.bounds (rows <= 5/6, N <= 7/9).",
+   note="Trusted: pandas/numpy models incl. rank(method=average) (witness-validated on the real libraries), real arithmetic for ratios/means. Bounds: see evidence.bounds (rows <= 5/6, N <= 7/9; monotonicity also on int16 / uint8 signals with wrap-around modelled).",
    ref="4 C05"),
  'C09': dict(
    text="compute_features(x,'trough') and compute_features(-x,'peak') run for real on one path (both burst methods) with raw samples and cyclepoint positions as z3 variables; the cyclepoint search is cut to a recorder that proves both analyses hand it the same signal and returns one arbitrary C01-conforming table; every column of the two tables is proved equal under the documented renaming / negation / one-minus map, labels included.",
